@@ -152,7 +152,11 @@ class OptionalCoercerProvider(NormTypeCoercerProvider):
         return norm.origin == Union and None in [case.origin for case in norm.args]
 
     def _get_not_none(self, norm: BaseNormType) -> BaseNormType:
-        return next(case for case in norm.args if case.origin is not None)
+        not_none_cases = [case for case in norm.args if case.origin is not None]
+        if len(not_none_cases) == 1:
+            return not_none_cases[0]
+        # Union[A, B, None] is Optional[Union[A, B]]
+        return normalize_type(Union[tuple(case.source for case in not_none_cases)])
 
 
 class TypeHintTagsUnwrappingProvider(CoercerProvider):
